@@ -1,8 +1,364 @@
 import GceTcb.Base.Line
-/- Driver handler for stream `c07dec` (stub: replaced when the property's model lands). -/
+import GceTcb.Model.DecTotal
+/- Driver handler for stream `c07dec` (verifier-glue half of C07): instantiates the model's `Parsers`
+   with the parse-shape facts of one protocol line and prints the model's outcome class and values. -/
 namespace GceTcb.Drive.C07Dec
-open GceTcb
+open GceTcb GceTcb.DecTotal
 
-def handle (_f : Fields) : String := "unimplemented"
+/-- compact byte strings of the harness: `x<hex>` or `#<len>.<id>` (content determined by id) -/
+def cb (s : String) : Bytes :=
+  if s.startsWith "x" then (hexDecode (s.drop 1).toString).getD []
+  else if s.startsWith "#" then
+    match ((s.drop 1).toString).splitOn "." with
+    | [l, i] => List.replicate (l.toNat?.getD 0) (UInt8.ofNat (i.toNat?.getD 0))
+    | _ => []
+  else []
+
+def showCb (b : Bytes) : String :=
+  if b.length ≤ 48 then "x" ++ hexEncode b
+  else s!"#{b.length}.{(b.headD 0).toNat}"
+
+abbrev Cert := Nat
+abbrev Roots := Unit
+abbrev Time := Unit
+
+/-! ### endorsement facts under a key prefix -/
+
+def parseTs (s : String) : Option Ts :=
+  match s.splitOn ":" with
+  | [a, b] => some ⟨a.toInt?.getD 0, b.toInt?.getD 0⟩
+  | _ => none
+
+def parseMeas (s : String) : Option (List (Nat × Bytes)) :=
+  if s == "nil" then none
+  else some ((if s == "" then [] else s.splitOn ",").filterMap fun e =>
+    match e.splitOn ":" with
+    | [k, v] => some (k.toNat?.getD 0, cb v)
+    | _ => none)
+
+def parseRows (s : String) : List (Option PTdxRow) :=
+  (if s == "" then [] else s.splitOn ",").filterMap fun e =>
+    match e.splitOn ":" with
+    | [k, v] => some (some ⟨k.toNat?.getD 0, cb v⟩)
+    | _ => none
+
+/-- the facts of endorsement number `i` (key prefix `p`) -/
+structure EFacts where
+  idx : Nat
+  present : Bool          -- the key `<p>e` is on the line
+  ser : Bool
+  golden : Option PGolden
+  certLen : Nat
+  parse : Bool
+  chain : Bool
+  sig : Bool
+  cab : Nat
+  pem : List String
+
+def payloadOf (i : Nat) : Bytes := [0xA0, UInt8.ofNat i]
+def sigOf (i : Nat) : Bytes := [0x51, UInt8.ofNat i]
+def certOf (i n : Nat) : Bytes := if n == 0 then [] else [0xC0, UInt8.ofNat i]
+def bundleOf (i n : Nat) : Bytes := if n == 0 then [] else [0xCA, UInt8.ofNat i, 0]
+def restOf (i k n : Nat) : Bytes := if n == 0 then [] else [0xCA, UInt8.ofNat i, UInt8.ofNat k]
+
+def eFacts (f : Fields) (p : String) (i : Nat) : EFacts :=
+  let g := fun k => f.get (p ++ k)
+  let ser := g "e" == "1"
+  let gol : Option PGolden :=
+    if ser && g "g" == "1" then
+      let snp : Option PSevSnp :=
+        if g "snp" == "1" then
+          some ⟨(g "pol").toNat?.getD 0, (g "svn").toNat?.getD 0, parseMeas (g "meas"), cb (g "svsm"),
+                bundleOf i ((g "cab").toNat?.getD 0)⟩
+        else none
+      let tdx : Option PTdx := if g "tdx" == "1" then some ⟨parseRows (g "rows")⟩ else none
+      some ⟨parseTs (g "ts"), (g "cl").toNat?.getD 0, List.replicate ((g "cm").toNat?.getD 0) 0,
+            certOf i ((g "c").toNat?.getD 0), cb (g "d"), snp, tdx⟩
+    else none
+  { idx := i, present := f.has (p ++ "e"), ser := ser, golden := gol, certLen := (g "c").toNat?.getD 0,
+    parse := g "cp" == "1", chain := g "cch" == "1", sig := g "cs" == "1",
+    cab := (g "cab").toNat?.getD 0,
+    pem := if g "pem" == "-" || g "pem" == "" then [] else (g "pem").splitOn "," }
+
+def EFacts.endorsement (x : EFacts) : Option PEndorsement :=
+  if x.ser then some ⟨payloadOf x.idx, sigOf x.idx⟩ else none
+
+/-- pem.Decode on the bundle of endorsement i and on the rests the facts name -/
+def pemOf (x : EFacts) (b : Bytes) : Option PemBlock × Bytes :=
+  let rec go (k : Nat) (cur : Bytes) : List String → Option PemBlock × Bytes
+    | [] => (none, b)
+    | s :: more =>
+      let parts := s.splitOn ":"
+      let res : Option PemBlock × Bytes :=
+        match parts with
+        | ["nil", r] => (none, restOf x.idx (k + 1) (r.toNat?.getD 0))
+        | [t, l, r] => (some ⟨t == "C", List.replicate (l.toNat?.getD 0) 0⟩, restOf x.idx (k + 1) (r.toNat?.getD 0))
+        | _ => (none, b)
+      if b == cur then res else go (k + 1) res.2 more
+  go 0 (bundleOf x.idx x.cab) x.pem
+
+/-! ### attestation shapes -/
+
+def sevShape (f : Fields) (p : String) : PAtt :=
+  let g := fun k => f.get (p ++ k)
+  let report : Option PReport := if g "rep" == "1" then some ⟨cb (g "m")⟩ else none
+  let nex := (g "nex").toNat?.getD 0
+  let x := g "x"
+  let entries : List (String × Bytes) :=
+    (if x == "-" then [] else [(gceFwCertGUID, cb x)]) ++
+    (List.range (nex - (if x == "-" then 0 else 1))).map (fun i => (s!"other-{i}", []))
+  let chain : Option PChain := if g "cc" == "1" then some ⟨if nex == 0 then none else some entries⟩ else none
+  ⟨report, chain⟩
+
+def tdxShape (f : Fields) (p : String) : PQuote :=
+  ⟨if f.get (p ++ "body") == "1" then some (cb (f.get (p ++ "mrtd"))) else none⟩
+
+def parseEnts (s : String) : List (Nat × Nat) :=
+  (if s == "" then [] else s.splitOn ";").filterMap fun e =>
+    match e.splitOn ":" with
+    | [a, b] => some (a.toNat?.getD 0, b.toNat?.getD 0)
+    | _ => none
+
+def headerFact (f : Fields) (p : String) : Option (List (Nat × Nat)) :=
+  if f.get p == "1" then some (parseEnts (f.get (p ++ ".ents"))) else none
+
+/-! ### the parsers of one line -/
+
+def caseQuote (f : Fields) : Bytes := List.replicate (f.nat "n") 0xB0
+def decodedQuote (f : Fields) : Bytes :=
+  if f.get "enc" == "raw" then caseQuote f else List.replicate (f.nat "dn") 0xB2
+def provQuote : Bytes := [0xB9]
+
+def mkParsers (f : Fields) : Parsers Cert Roots Time :=
+  let es : List EFacts := [eFacts f "" 0, eFacts f "x." 1, eFacts f "o." 2, eFacts f "n." 3]
+  let byIdx := fun (i : Nat) => es.find? (fun x => x.idx == i)
+  -- the byte strings the endorsements arrive as
+  let serOf := fun (i : Nat) => ([0xE0, UInt8.ofNat i] : Bytes)
+  let quote := caseQuote f
+  let quote2 := decodedQuote f
+  let hasAF := f.has "tpm"
+  { unmarshalEndorsement := fun b =>
+      match es.find? (fun x => x.present && b == serOf x.idx) with
+      | some x => x.endorsement
+      | none => if b.isEmpty then some ⟨[], []⟩ else none
+    unmarshalGolden := fun b =>
+      match es.find? (fun x => x.present && x.ser && b == payloadOf x.idx) with
+      | some x => x.golden
+      | none => if b.isEmpty then some PGolden.empty else none
+    parseCert := fun b =>
+      match b with
+      | [0xC0, i] => (byIdx i.toNat).bind (fun x => if x.parse then some x.idx else none)
+      | _ => none
+    verifyChain := fun c _ _ => ((byIdx c).map (·.chain)).getD false
+    checkSig := fun c m s => m == payloadOf c && s == sigOf c && ((byIdx c).map (·.sig)).getD false
+    pemDecode := fun b =>
+      match b with
+      | 0xCA :: i :: _ => match byIdx i.toNat with
+        | some x => pemOf x b
+        | none => (none, b)
+      | _ => (none, b)
+    unmarshalTpm := fun q =>
+      if q == provQuote then some (.sev (some ⟨some ⟨cb (f.get "gm")⟩, some ⟨some [(gceFwCertGUID, [0xE0, 9])]⟩⟩))
+      else if !hasAF then (if q == quote then some (.tdx (some ⟨some []⟩)) else none)
+      else if q == quote && f.get "tpm" == "1" then
+        match f.get "t.tee" with
+        | "sev" => some (.sev (if f.get "t.nil" == "1" then none else some (sevShape f "t.")))
+        | "tdx" => some (.tdx (if f.get "t.nil" == "1" then none else some (tdxShape f "t.")))
+        | _ => some .none
+      else none
+    unmarshalSevAtt := fun q => if q == quote && f.get "sa" == "1" then some (sevShape f "sa.") else none
+    unmarshalReport := fun q => if q == quote && f.get "rp" == "1" then some ⟨cb (f.get "rp.m")⟩ else none
+    unmarshalQuoteV4 := fun q => if q == quote && f.get "q4" == "1" then some (tdxShape f "q4.") else none
+    hexDecode := fun q => if q == quote && f.get "enc" == "hex" then some quote2 else none
+    base64Decode := fun q => if q == quote && f.get "enc" == "b64" then some quote2 else none
+    certTableHeader := fun t =>
+      if f.has "h" then (if t == quote then headerFact f "h" else none)
+      else if t == quote2 then headerFact f "h2"
+      else if t == quote2.drop reportSize then headerFact f "h1"
+      else none
+    reportCertsToProto := fun q => if q == quote2 && f.get "rc" == "1" then some (sevShape f "rc.") else none
+    certTableProto := fun q => if q == quote2 && f.get "ct" == "1" then (sevShape f "ct.").chain else none
+    certTableGet := fun t =>
+      if t == quote && f.get "tb" == "1" then some (if f.get "tb.x" == "-" then none else some (cb (f.get "tb.x")))
+      else none
+    quoteToProto := fun q =>
+      if q == quote2 then
+        match f.get "tq" with
+        | "v4" => .ok (some (tdxShape f "tq."))
+        | "other" => .ok none
+        | "panic" => .panic "go-tdx-guest"
+        | _ => .err "quote"
+      else .err "quote"
+    defaultPolicyBits := f.nat "dp"
+    sevPolicyToOptions := fun _ => f.bool "pto"
+    snpBaseChecks := fun _ _ => f.bool "base"
+    tdxPolicyToOptions := fun _ => f.bool "pto"
+    tdxQuoteChecks := fun _ _ => f.bool "quote"
+    pathValue := fun _ path _ =>
+      -- the facts are positional: path names are "p<i>"
+      let i := (path.drop 1).toString.toNat?.getD 0
+      match ((f.get "pv").splitOn ",")[i]? with
+      | none => none
+      | some s =>
+        match s.splitOn ":" with
+        | ["err"] => none
+        | ["b", n] => some (.bytes (n.toNat?.getD 0))
+        | ["msg"] => some .msg
+        | ["map", n, t] => some (.map (n.toNat?.getD 0) (t.toNat?.getD 0))
+        | ["s", n] => some (.scalar (n.toNat?.getD 0))
+        | ["ts", n] => some (.ts (n.toNat?.getD 0))
+        | ["tsbad"] => some .tsBad
+        | _ => none }
+
+/-! ### rendering -/
+
+def cls {α : Type} (x : M α) (vals : α → String) : String :=
+  match x.out with
+  | .ok a => let v := vals a; if v == "" then "ok" else "ok " ++ v
+  | .err _ => "reject"
+  | .panic _ => "panic"
+
+def showGot {α : Type} (x : M α) : String :=
+  match x.tr.gets with
+  | [] => " got=-"
+  | [u] => s!" got={u.tech}:{showCb u.meas}"
+  | l => s!" got=?{l.length}-requests"
+
+def parseSnpo (s : String) : Option SNPOptions :=
+  if s == "nil" then none
+  else match s.splitOn ":" with
+    | [m, v] => some ⟨if m == "nil" then none else some (cb m), v.toNat?.getD 0⟩
+    | _ => none
+
+def parseForm (s : String) : BytesForm :=
+  match s with
+  | "bin" => .raw | "hex" => .hex | "guid" => .hexGuidify | "base64" => .base64 | "auto" => .auto | _ => .other
+
+def parseSevBase (s : String) : Option SevPol :=
+  match s.splitOn ":" with
+  | [p, ms, m, ni, na] =>
+    some ⟨p.toNat?.getD 0, ms.toNat?.getD 0, if m == "nil" then none else some (cb m),
+          List.replicate (ni.toNat?.getD 0) [1], List.replicate (na.toNat?.getD 0) [1]⟩
+  | _ => none
+
+def parseTdxBase (s : String) : Option TdxPol :=
+  match s with
+  | "nobody" => some ⟨none⟩
+  | "body" => some ⟨some none⟩
+  | "anymrtd" => some ⟨some (some [[7]])⟩
+  | _ => none
+
+def lastLen (l : List Bytes) : Nat := (l.getLast?.map (·.length)).getD 0
+
+def serMain : Bytes := [0xE0, 0]
+
+def getterFor (f : Fields) (answer : Bytes) : Option (Url → Option Bytes) :=
+  if f.get "gm" == "-" || !f.has "gm" then none
+  else some (fun u => if u.tech == "sev" && u.meas == cb (f.get "gm") then some answer
+                      else if u.tech == "tdx" && f.has "gt" && u.meas == cb (f.get "gt") then some answer else none)
+
+def handle (f : Fields) : String :=
+  let P := mkParsers f
+  let op := f.get "op"
+  let base := (op.splitOn ".").headD ""
+  let sub := ((op.splitOn ".").drop 1).headD ""
+  let main := eFacts f "" 0
+  match base with
+  | "endorsement" =>
+    let o : Options Roots Time :=
+      { snp := parseSnpo (f.get "snpo"), roots := (if f.bool "roots" then some () else none),
+        expectedUefiSha384 := cb (f.get "exp"), now := (), endorsement := none, getter := none }
+    cls (endorsement P serMain (some o)) (fun _ => "")
+  | "closure" =>
+    let att : Option PAtt :=
+      match (f.get "att").splitOn ":" with
+      | [r, m] => some ⟨if r == "1" then some ⟨cb m⟩ else none, none⟩
+      | _ => none
+    let mode := f.get "mode"
+    let o : Options Roots Time :=
+      { snp := some ⟨none, f.nat "vmsas"⟩, roots := some (), expectedUefiSha384 := [], now := (),
+        endorsement := (if mode == "opt" then main.endorsement else none),
+        getter := (if mode == "get" then some (fun u => if u.tech == "sev" && u.meas == PAtt.measurement att then some serMain else none) else none) }
+    let r := snpClosure P (some o) att (if mode == "blob" then some serMain else none)
+    cls r (fun _ => "") ++ showGot r
+  | "attestation" =>
+    cls (attestation P (caseQuote f)) fun
+      | .sev a => s!"tee=sev m={showCb (PAtt.measurement a)} x=" ++
+          (match slookup (PAtt.extras a) gceFwCertGUID with | some b => showCb b | none => "-")
+      | .tdx q => s!"tee=tdx m={showCb (PQuote.mrtd q)}"
+      | .none => "tee=none"
+  | "extract" =>
+    let o : ExtractOptions :=
+      { provider := (if f.get "prov" == "1" then some (some provQuote) else none),
+        getter := (if f.bool "getter" then getterFor f [0xE0, 9] else none), quote := caseQuote f, forceFetch := f.bool "force" }
+    let r := extractEndorsement P (some o)
+    cls r (fun b => "out=" ++ (if b == [0xE0, 9] then f.get "ge" else showCb b)) ++ showGot r
+  | "fromcerttable" => cls (fromCertTable P (caseQuote f)) (fun b => "out=" ++ showCb b)
+  | "fromattestation" => cls (fromAttestation (some (sevShape f "a."))) (fun b => "out=" ++ showCb b)
+  | "sevpolicy" =>
+    let o : SevPolicyOptions := ⟨parseSevBase (f.get "base"), f.nat "vmsas", f.bool "ow", f.bool "allow"⟩
+    cls (sevPolicy P main.endorsement (some o)) fun p =>
+      s!"pol={p.policy} m=" ++ (match p.measurement with | some m => showCb m | none => "nil") ++ " " ++
+      s!"idk={p.trustedIdKeys.length}:{lastLen p.trustedIdKeys} ak={p.trustedAuthorKeys.length}:{lastLen p.trustedAuthorKeys}"
+  | "tdxpolicy" =>
+    let o : TdxPolicyOptions := ⟨parseTdxBase (f.get "base"), f.int "ram", f.bool "ow"⟩
+    cls (tdxPolicy P main.endorsement (some o)) fun p =>
+      "mrtds=" ++ ",".intercalate (((p.body.getD none).getD []).map showCb)
+  | "sevvalidate" =>
+    let src := f.get "src"
+    let att := sevShape f "a."
+    -- which endorsement facts stand for what: x. = the certificate-table entry, o. = opts.Endorsement, n. = the getter's answer
+    let optE := (eFacts f "o." 2).endorsement
+    let att' : PAtt :=
+      -- the certificate-table entry's bytes are the serialized endorsement number 1
+      { att with chain := att.chain.map fun c => ⟨c.extras.map fun l => l.map fun p => if p.1 == gceFwCertGUID then (p.1, if p.2.isEmpty && !(f.has "x.e") then [] else [0xE0, 1]) else p⟩ }
+    let o : SevValidateOptions Roots Time :=
+      { endorsement := (if src == "opt" || src == "attopt" then optE else none), basePolicy := none,
+        overwrite := false, roots := some (), now := (), getter := getterFor f [0xE0, 3], expectedLaunchVmsas := f.nat "vmsas",
+        testonlyForceGCS := f.bool "force" }
+    let r := sevValidate P (some att') (some o)
+    cls r (fun _ => "") ++ showGot r
+  | "tdxvalidate" =>
+    let o : TdxValidateOptions Roots Time :=
+      { endorsement := (eFacts f "o." 2).endorsement, basePolicy := none, overwrite := false,
+        roots := some (), now := (), expectedRAMGiB := f.int "ram", extracted := none }
+    let q := if f.get "src" == "opt" then [0xB0] else caseQuote f
+    let P' := if f.get "src" == "opt" then { P with unmarshalTpm := fun _ => some (.tdx (some ⟨some []⟩)) } else P
+    cls (tdxValidate P' q (some o)) (fun _ => "")
+  | "inspect" =>
+    let ctx : Option (Option Inspect) := some (some ⟨parseForm (f.get "form"), f.bool "term"⟩)
+    if sub == "mask" then
+      let e : PEndorsement := ⟨[0xA0, 0], []⟩
+      let P' := { P with unmarshalGolden := fun _ => if f.bool "g" then some PGolden.empty else none }
+      let paths := (List.range (f.nat "np")).map (fun i => s!"p{i}")
+      -- the timestamp renderer is selected by path name: the facts say which value kind came back
+      cls (inspectMask P' ctx (some e) paths) fun
+        | some n => s!"n={n}"
+        | none => "n=*"
+    else
+      let e : PEndorsement := ⟨List.replicate (f.nat "len") 0, List.replicate (f.nat "len") 0⟩
+      cls (if sub == "signature" then inspectSignature ctx (some e) else inspectPayload ctx (some e)) (fun n => s!"n={n}")
+  | "cli" =>
+    match sub with
+    | "verify" =>
+      let o : Options Roots Time := { snp := none, roots := some (), expectedUefiSha384 := [], now := (), endorsement := none, getter := none }
+      cls (endorsement P serMain (some o)) (fun _ => "")
+    | "inspect" =>
+      if !f.bool "e" then "reject"
+      else
+        let ctx : Option (Option Inspect) := some (some ⟨parseForm (f.get "form"), false⟩)
+        let e : PEndorsement := ⟨List.replicate (f.nat "len") 0, List.replicate (f.nat "len") 0⟩
+        let which := ((op.splitOn ".").drop 2).headD ""
+        cls (if which == "signature" then inspectSignature ctx (some e) else inspectPayload ctx (some e)) (fun n => s!"n={n}")
+    | "sevpolicy" =>
+      match main.endorsement with
+      | none => "reject"
+      | some e => cls (sevPolicy P (some e) (some ⟨none, f.nat "vmsas", false, true⟩)) (fun _ => "")
+    | "tdxpolicy" =>
+      match main.endorsement with
+      | none => "reject"
+      | some e => cls (tdxPolicy P (some e) (some ⟨none, f.int "ram", false⟩)) (fun _ => "")
+    | _ => "unimplemented"
+  | _ => "unimplemented"
 
 end GceTcb.Drive.C07Dec
